@@ -273,21 +273,81 @@ def check_format_safe(ctx, prop):
                 if not may_be_matchee:
                     ctx.check("R-FORMAT-SAFE", f"{modname.split('.')[-1]}:{f.name}: {norm(b)[:50]}", b, True)
                     continue
-                guarded = False
-                p = b
-                while p is not None and p is not f:
-                    par = getattr(p, "_parent", None)
-                    if isinstance(par, ast.If) and any(p is s or any(p is w for w in ast.walk(s)) for s in par.body):
-                        t = par.test
-                        if (isinstance(t, ast.UnaryOp) and isinstance(t.op, ast.Not) and isinstance(t.operand, ast.Call) and dotted(t.operand.func) == "isinstance"
-                                and norm(t.operand.args[0]) == norm(b.right) and "tuple" in norm(t.operand.args[1])):
-                            guarded = True
-                    p = par
+                guarded = _format_site_safe_for_tuples(ctx, f, b, [o[1] for o in origins if o[0] == "param"])
+                if guarded is None:
+                    # (the function could not be followed: the written guard decides)
+                    guarded = False
+                    p = b
+                    while p is not None and p is not f:
+                        par = getattr(p, "_parent", None)
+                        if isinstance(par, ast.If) and any(p is s or any(p is w for w in ast.walk(s)) for s in par.body):
+                            t = par.test
+                            if (isinstance(t, ast.UnaryOp) and isinstance(t.op, ast.Not) and isinstance(t.operand, ast.Call) and dotted(t.operand.func) == "isinstance"
+                                    and norm(t.operand.args[0]) == norm(b.right) and "tuple" in norm(t.operand.args[1])):
+                                guarded = True
+                        p = par
                 ctx.check("R-FORMAT-SAFE", f"{modname.split('.')[-1]}:{f.name}: {norm(b)[:50]}", b, guarded,
                           f"`{norm(b)}`: the right operand may be the matchee itself; for a tuple matchee (e.g. an exc_info tuple) %-formatting raises TypeError "
-                          "instead of returning a Mismatch -- format a 1-tuple `(x,)` or exclude tuples first",
+                          "instead of returning a Mismatch -- format a 1-tuple `(x,)` or exclude tuples first (or: a matchee that is not a tuple at all makes the function raise "
+                          "instead of reporting it)",
                           construct=f"{modname}:{getattr(getattr(f, '_class', None), 'name', '')}.{f.name}::{norm(b)}")
     return n
+
+
+def _format_site_safe_for_tuples(ctx, f, site, params):
+    """Run ``f`` with each of ``params`` bound to a tuple of three values (an exc_info tuple, say), everything else unknown:
+    is the %-format ``site`` ever evaluated with that tuple as its whole right operand?  -> True (never) / False / None
+    (the function could not be followed)."""
+    from .. import effects
+    from ..loader import Undecided
+    from ..objects import ObjectDomain
+    TRIPLE = ("tuple", ("sym", "first of three"), ("sym", "second of three"), ("sym", "third of three"))
+
+    class Probe(ObjectDomain):
+        lazy_generators = False
+
+        def binop(self, e, left, right):
+            if e is site and right == TRIPLE:
+                self.hit = True
+            return super().binop(e, left, right)
+
+        def call(self, interp, call, st, fr):
+            # isinstance(<the triple>, ...): it is a tuple, and nothing else
+            if dotted(call.func) == "isinstance" and len(call.args) == 2 and not call.keywords:
+                got = interp.eval(call.args[0], st, fr)
+                if got and all(r.kind == "val" and r.value == TRIPLE for r in got):
+                    names = [dotted(t) for t in (call.args[1].elts if isinstance(call.args[1], ast.Tuple) else [call.args[1]])]
+                    if all(n_ in ("tuple", "list", "str", "bytes", "int", "float", "dict", "set", "type", "bool") for n_ in names):
+                        from ..absint import FALSE, TRUE
+                        return [val(TRUE if "tuple" in names else FALSE, r.state) for r in got]
+            return super().call(interp, call, st, fr)
+
+    cls = getattr(f, "_class", None)
+    ci = ctx.classes.get(f._module.name, cls.name) if cls is not None else None
+    names = [a.arg for a in f.args.args]
+    for p in params or []:
+        if p not in names:
+            return None
+        dom = Probe(ctx.classes, log_cap=40)
+        dom.hit = False
+        try:
+            res = effects.run(ctx, dom, f, ci, {p: TRIPLE}, state=State(), depth=4)
+        except (Undecided, AnalysisError, RecursionError):
+            return None
+        if not res:
+            return None
+        if dom.hit:
+            return False
+        # the branch exists to report a matchee of the wrong shape: a matchee that is not a tuple at all must be reported too, not raise
+        dom = Probe(ctx.classes, log_cap=40)
+        dom.hit = False
+        try:
+            res = effects.run(ctx, dom, f, ci, {p: ("const", 42)}, state=State(), depth=4)
+        except (Undecided, AnalysisError, RecursionError):
+            return None
+        if any(r.kind == "exc" and r.value[:2] in (("exc", "TypeError"), ("exc", "IndexError"), ("exc", "AttributeError")) for r in res):
+            return False
+    return True if params else None
 
 
 def check_force_honoured(ctx):
